@@ -224,6 +224,7 @@ impl Session {
 
     fn exec_inner(&mut self, a: &Args, extra: &mut Vec<String>) -> Fields {
         let mut f = Fields::new();
+        suite::DROP_WHILE_UNWINDING.with(|c| c.set(a.u("unwind") == 1));
         let op = a.call.op.as_str();
         let outname = a.s("out").to_string();
         if self.suite.is_none() || self.kem.is_none() {
@@ -241,6 +242,18 @@ impl Session {
                 f.ok().kv("sk", out(&sk)).kv("pk", out(&pk)).kv("pk2", out(&pk2));
                 setreg(&mut self.regs, &outname, "sk", &sk);
                 setreg(&mut self.regs, &outname, "pk", &pk);
+            }
+            "derive_toy" => {
+                // DeriveKeyPair with the steerable hash of toy.rs (hook verif_derive_keypair_with)
+                let id = self.kem.as_ref().unwrap().kem_id();
+                match crate::toy::derive(id, a.b("ikm"), a.b("table")) {
+                    Some((sk, pk, pk2)) => {
+                        f.ok().kv("sk", out(&sk)).kv("pk", out(&pk)).kv("pk2", out(&pk2));
+                    }
+                    None => {
+                        f.skip("hook or KEM not compiled in");
+                    }
+                }
             }
             "gen_keypair" => {
                 let mut rng = ScriptRng::new(a.b("rng").to_vec());
@@ -690,6 +703,57 @@ impl Session {
                     }
                 }
                 f.ok();
+            }
+            "tls_teardown" => {
+                // A worker thread whose OWN thread-local was initialised first (so it is destroyed last) calls the
+                // library once in its body and once more from that thread-local's destructor, i.e. while the thread
+                // is being torn down and after any thread-local the library may have created has been destroyed.
+                struct AtExit(Vec<u8>, Vec<u8>, Vec<u8>, u16, u16, u16, std::sync::mpsc::Sender<String>);
+                impl Drop for AtExit {
+                    fn drop(&mut self) {
+                        let r = std::panic::catch_unwind(std::panic::AssertUnwindSafe(|| teardown_roundtrip(&self.0, &self.1, &self.2, self.3, self.4, self.5)));
+                        let _ = self.6.send(match r {
+                            Ok(v) => v,
+                            Err(_) => "panic".to_string(),
+                        });
+                    }
+                }
+                thread_local! {
+                    static EXIT: std::cell::RefCell<Option<AtExit>> = const { std::cell::RefCell::new(None) };
+                }
+                fn teardown_roundtrip(skr: &[u8], pkr: &[u8], rng: &[u8], kem: u16, kdf: u16, aead: u16) -> String {
+                    let Some(su) = suite::suite_ops(kem, kdf, aead) else { return "nosuite".into() };
+                    let mut r = ScriptRng::new(rng.to_vec());
+                    let m = ModeArgs::default();
+                    let Ok((enc, mut cs)) = su.setup_s(&m, pkr, b"", &mut r) else { return "setup_s_failed".into() };
+                    let Ok(mut cr) = su.setup_r(&m, skr, &enc, b"") else { return "setup_r_failed".into() };
+                    let full = match cs.seal_alloc(b"teardown", b"") {
+                        Some(Ok(f)) => f,
+                        _ => return "seal_failed".into(),
+                    };
+                    match cr.open_alloc(&full, b"") {
+                        Some(Ok(pt)) if pt == b"teardown" => "ok".into(),
+                        Some(Ok(_)) => "wrong_plaintext".into(),
+                        Some(Err(e)) => format!("open_err:{}", err_name(&e)),
+                        None => "noalloc".into(),
+                    }
+                }
+                let (tx, rx) = std::sync::mpsc::channel::<String>();
+                let (skr, pkr, rng) = (a.b("skr").to_vec(), a.b("pkr").to_vec(), a.b("rng").to_vec());
+                let ids = self.ids;
+                let h = std::thread::spawn(move || {
+                    // our thread-local first ...
+                    EXIT.with(|e| *e.borrow_mut() = Some(AtExit(skr.clone(), pkr.clone(), rng.clone(), ids.0, ids.1, ids.2, tx)));
+                    // ... then the library is used in the thread body (this is when it would create its own)
+                    teardown_roundtrip(&skr, &pkr, &rng, ids.0, ids.1, ids.2)
+                });
+                let body = h.join().unwrap_or_else(|_| "thread_panicked".into());
+                let dtor = rx.recv_timeout(std::time::Duration::from_secs(60)).unwrap_or_else(|_| "no_report".into());
+                f.ok().kv("body", body).kv("in_destructor", dtor);
+            }
+            "probe_ctl" => {
+                crate::probe::FAIL_SEAL.with(|c| c.set(a.u("fail_seal") as u32));
+                f.ok().kv("seals_seen", crate::probe::SEALS.with(|c| c.get()));
             }
             "decap_storm" => {
                 let threads = (a.u("threads") as usize).clamp(2, 64);
